@@ -30,8 +30,11 @@ statement translation, same ownership / definite-assignment discipline) with:
   * staticmethods, bool(), isinstance(x, str), `x [not] in [<str constants>]`;
   * the set_mode-assigned attributes MAX_DAYS_IN_MONTH and MAX_WEEKS_IN_YEAR
     (record pyCalendar7).
-_type_checker is an intrinsic: a no-op when the static types of the entry point
-conform to the listed ones (its body is compared with the known text).
+_type_checker is read semantically: its body only looks at the class of a value, so it
+is executed at translation time on an abstract value of every run-time class the static
+type of a listed parameter admits (ClassInterp); the call is a no-op for the typed entry
+point iff none of these runs raises.  Methods that store to slots of self
+(_set_date_defaults after a refactor) are state transformers as in phase 4.
 Fail closed: see notes/GENCODE7_REPORT.md.
 """
 import ast
@@ -79,29 +82,261 @@ INIT_PARAMS = [
 TZ_INIT_PARAMS = [("hours", OPT(Z)), ("minutes", OPT(Z)), ("unknown", B),
                   ("_is_empty_instance", ("SB", False))]
 
-# the body of _type_checker that is read as "raises only for a value whose type is
-# outside the listed ones" (docstring removed)
-TYPE_CHECKER_BODY = """for type_info in objects:
-    value, name = type_info[:2]
-    allowed_types = list(type_info[2:])
-    none_is_allowed = False
-    if None in allowed_types:
-        if value is None:
-            continue
-        none_is_allowed = True
-        allowed_types.remove(None)
-        allowed_types.append(type(None))
-    if allowed_types and isinstance(value, allowed_types[0]):
-        continue
-    if int in allowed_types and float not in allowed_types:
-        value = _int_caster(value, name=name, allow_none=none_is_allowed)
-    if any((isinstance(value, type_) for type_ in allowed_types)):
-        continue
-    values_string = ''
-    if allowed_types:
-        values_string = ' should be: '
-        values_string += ' or '.join((str(v) for v in allowed_types))
-    raise BadInputError(BadInputError.TYPE, name, repr(value), values_string)"""
+# ---------------------------------------------------------------------------
+# _type_checker: read semantically.  The helper only ever looks at the *class* of the value it is
+# given (`value is None`, isinstance, type()); for a parameter whose static type admits the run-time
+# classes C1..Cn its body is executed here, at translation time, on an abstract value of each class
+# (everything else it handles -- the tuple of allowed types -- is static).  The call is a no-op for
+# the typed entry point iff every such run ends its loop iteration without raising, returning or
+# calling anything; whatever is outside this little language is a rejection.
+class _Abs:
+    """a run-time value of which only the class is known"""
+
+    def __init__(self, cls):
+        self.cls = cls
+
+
+class _Continue(Exception):
+    pass
+
+
+class _Return(Exception):
+    pass
+
+
+NONETYPE = type(None)
+
+
+def runtime_classes(ty):
+    """the classes of the Python values a static type of an entry point stands for"""
+    if ty == Z:
+        return [int]
+    if ty == Q:
+        return [int, float]
+    if ty == S:
+        return [str]
+    if ty == B:
+        return [bool]
+    if ty == OPQ:
+        return [NONETYPE, str]
+    if is_opt(ty) and ty[1] in (Z, Q):
+        return [NONETYPE] + runtime_classes(ty[1])
+    raise Reject("_type_checker on a value of static type %r" % (ty,))
+
+
+class ClassInterp:
+    """executes the body of a helper whose behaviour depends only on the classes of its arguments"""
+    TYPES = {"int": int, "float": float, "str": str, "bool": bool}
+
+    def __init__(self, node):
+        a = node.args
+        if node.decorator_list or a.posonlyargs or a.args or a.kwonlyargs or a.kwarg or a.vararg is None:
+            raise Reject("_type_checker is not `def _type_checker(*<name>)`")
+        self.node = node
+        self.vararg = a.vararg.arg
+
+    def run(self, objects):
+        """the call _type_checker(*objects): returns normally, or Reject"""
+        env = {self.vararg: tuple(objects)}
+        body = [st for st in self.node.body
+                if not (isinstance(st, ast.Expr) and isinstance(st.value, ast.Constant))]
+        try:
+            self.block(body, env)
+        except _Return:
+            pass
+        except _Continue:
+            raise Reject("_type_checker: continue outside a loop")
+
+    def block(self, stmts, env):
+        for st in stmts:
+            self.stmt(st, env)
+
+    def stmt(self, st, env):
+        if isinstance(st, ast.For):
+            if st.orelse or not isinstance(st.target, ast.Name):
+                raise Reject("_type_checker: for/else or a loop target that is not a name")
+            items = self.expr(st.iter, env)
+            if not isinstance(items, (tuple, list)):
+                raise Reject("_type_checker: loop over something that is not a static sequence")
+            for n in ast.walk(ast.Module(body=st.body, type_ignores=[])):
+                if isinstance(n, ast.Name) and n.id == self.vararg:
+                    raise Reject("_type_checker: the loop body looks at the whole argument list")
+                if isinstance(n, ast.Break):
+                    raise Reject("_type_checker: break")
+            for item in list(items):
+                # every iteration starts from the environment at loop entry: a local of an earlier
+                # iteration that is read before being assigned again is an unbound name here (rejected)
+                it_env = dict(env)
+                it_env[st.target.id] = item
+                try:
+                    self.block(st.body, it_env)
+                except _Continue:
+                    pass
+            return
+        if isinstance(st, ast.Assign):
+            v = self.expr(st.value, env)
+            for t in st.targets:
+                self.assign(t, v, env)
+            return
+        if isinstance(st, ast.If):
+            self.block(st.body if self.truth(self.expr(st.test, env)) else st.orelse, env)
+            return
+        if isinstance(st, ast.Continue):
+            raise _Continue()
+        if isinstance(st, ast.Pass):
+            return
+        if isinstance(st, ast.Return):
+            if st.value is not None and not (isinstance(st.value, ast.Constant) and st.value.value is None):
+                raise Reject("_type_checker returns a value")
+            raise _Return()
+        if isinstance(st, ast.Raise):
+            raise Reject("_type_checker raises (%s)" % ast.unparse(st.exc)[:60])
+        if isinstance(st, ast.Expr) and isinstance(st.value, ast.Call) \
+                and isinstance(st.value.func, ast.Attribute) and st.value.func.attr in ("append", "remove") \
+                and len(st.value.args) == 1 and not st.value.keywords:
+            lst = self.expr(st.value.func.value, env)
+            if not isinstance(lst, list):
+                raise Reject("_type_checker: .%s on something that is not a local list" % st.value.func.attr)
+            x = self.static(self.expr(st.value.args[0], env))
+            if st.value.func.attr == "append":
+                lst.append(x)
+            elif x in lst:
+                lst.remove(x)
+            else:
+                raise Reject("_type_checker: list.remove of a missing element (ValueError)")
+            return
+        raise Reject("_type_checker: statement `%s`" % ast.unparse(st)[:60])
+
+    def assign(self, t, v, env):
+        if isinstance(t, ast.Name):
+            if t.id == self.vararg:
+                raise Reject("_type_checker assigns its argument list")
+            env[t.id] = v
+        elif isinstance(t, ast.Tuple) and all(isinstance(e, ast.Name) for e in t.elts):
+            if not isinstance(v, (tuple, list)) or len(v) != len(t.elts):
+                raise Reject("_type_checker: unpacking")
+            for e, x in zip(t.elts, v):
+                self.assign(e, x, env)
+        else:
+            raise Reject("_type_checker: assignment target `%s`" % ast.unparse(t))
+
+    @staticmethod
+    def static(v):
+        if isinstance(v, _Abs):
+            raise Reject("_type_checker uses the value itself, not only its class")
+        return v
+
+    def truth(self, v):
+        v = self.static(v)
+        if isinstance(v, (bool, str, tuple, list)) or v is None:
+            return bool(v)
+        raise Reject("_type_checker: truth value of %r" % (v,))
+
+    def expr(self, n, env):
+        if isinstance(n, ast.Constant):
+            if n.value is None or isinstance(n.value, (bool, str, int)):
+                return n.value
+            raise Reject("_type_checker: constant %r" % (n.value,))
+        if isinstance(n, ast.Name):
+            if n.id in env:
+                return env[n.id]
+            if n.id in self.TYPES:
+                return self.TYPES[n.id]
+            raise Reject("_type_checker: name %s is not bound here" % n.id)
+        if isinstance(n, (ast.Tuple, ast.List)):
+            vals = [self.expr(e, env) for e in n.elts]
+            return tuple(vals) if isinstance(n, ast.Tuple) else vals
+        if isinstance(n, ast.Subscript):
+            seq = self.expr(n.value, env)
+            if not isinstance(seq, (tuple, list)):
+                raise Reject("_type_checker: subscript of something that is not a static sequence")
+
+            def const(x):
+                if x is None:
+                    return None
+                if isinstance(x, ast.Constant) and type(x.value) is int:
+                    return x.value
+                if isinstance(x, ast.UnaryOp) and isinstance(x.op, ast.USub) \
+                        and isinstance(x.operand, ast.Constant) and type(x.operand.value) is int:
+                    return -x.operand.value
+                raise Reject("_type_checker: subscript that is not an int literal")
+            if isinstance(n.slice, ast.Slice):
+                if n.slice.step is not None:
+                    raise Reject("_type_checker: slice step")
+                return seq[const(n.slice.lower):const(n.slice.upper)]
+            i = const(n.slice)
+            if not -len(seq) <= i < len(seq):
+                raise Reject("_type_checker: index out of range")
+            return seq[i]
+        if isinstance(n, ast.UnaryOp) and isinstance(n.op, ast.Not):
+            return not self.truth(self.expr(n.operand, env))
+        if isinstance(n, ast.BoolOp):
+            v = None
+            for e in n.values:
+                v = self.expr(e, env)
+                t = self.truth(v)
+                if t != isinstance(n.op, ast.And):
+                    return v
+            return v
+        if isinstance(n, ast.IfExp):
+            return self.expr(n.body if self.truth(self.expr(n.test, env)) else n.orelse, env)
+        if isinstance(n, ast.Compare) and len(n.ops) == 1:
+            a, b = self.expr(n.left, env), self.expr(n.comparators[0], env)
+            op = n.ops[0]
+            if isinstance(op, (ast.Is, ast.IsNot)):
+                if b is not None or isinstance(n.comparators[0], ast.Name):
+                    if not (isinstance(n.comparators[0], ast.Constant) and n.comparators[0].value is None):
+                        raise Reject("_type_checker: `is` with something other than None")
+                r = (a.cls is NONETYPE) if isinstance(a, _Abs) else (a is None)
+                return r if isinstance(op, ast.Is) else not r
+            if isinstance(op, (ast.In, ast.NotIn)):
+                a = self.static(a)
+                if not isinstance(b, (tuple, list)) or any(isinstance(x, _Abs) for x in b):
+                    raise Reject("_type_checker: `in` on something that is not a static sequence")
+                if not (a is None or isinstance(a, type)) or not all(x is None or isinstance(x, type) for x in b):
+                    raise Reject("_type_checker: `in` on values other than classes / None")
+                r = any(x is a for x in b)      # classes and None: == is identity
+                return r if isinstance(op, ast.In) else not r
+            raise Reject("_type_checker: comparison `%s`" % ast.unparse(n))
+        if isinstance(n, ast.Call) and isinstance(n.func, ast.Name) and n.func.id not in env:
+            f = n.func.id
+            if n.keywords and f in ("list", "tuple", "type", "isinstance", "any", "all"):
+                raise Reject("_type_checker: keywords in %s()" % f)
+            if f in ("list", "tuple") and len(n.args) == 1:
+                v = self.expr(n.args[0], env)
+                if not isinstance(v, (tuple, list)):
+                    raise Reject("_type_checker: %s() of something that is not a static sequence" % f)
+                return list(v) if f == "list" else tuple(v)
+            if f == "type" and len(n.args) == 1:
+                v = self.expr(n.args[0], env)
+                if isinstance(v, _Abs):
+                    return v.cls
+                if v is None:
+                    return NONETYPE
+                raise Reject("_type_checker: type() of %r" % (v,))
+            if f == "isinstance" and len(n.args) == 2:
+                v, c = self.expr(n.args[0], env), self.expr(n.args[1], env)
+                cs = c if isinstance(c, tuple) else (c,)
+                if not isinstance(v, _Abs) or not cs or not all(isinstance(x, type) for x in cs):
+                    raise Reject("_type_checker: isinstance(%s)" % ast.unparse(n)[:60])
+                return any(issubclass(v.cls, x) for x in cs)
+            if f in ("any", "all") and len(n.args) == 1 and isinstance(n.args[0], (ast.GeneratorExp, ast.ListComp)):
+                g = n.args[0]
+                if len(g.generators) != 1 or g.generators[0].ifs or g.generators[0].is_async \
+                        or not isinstance(g.generators[0].target, ast.Name):
+                    raise Reject("_type_checker: comprehension shape")
+                seq = self.expr(g.generators[0].iter, env)
+                if not isinstance(seq, (tuple, list)):
+                    raise Reject("_type_checker: comprehension over something that is not a static sequence")
+                for x in list(seq):       # any / all consume the generator lazily: short circuit
+                    e2 = dict(env)
+                    e2[g.generators[0].target.id] = x
+                    t = self.truth(self.expr(g.elt, e2))
+                    if t == (f == "any"):
+                        return t
+                return f == "all"
+            raise Reject("_type_checker calls %s" % f)
+        raise Reject("_type_checker: expression `%s`" % ast.unparse(n)[:60])
 
 
 def coq_type(t):
@@ -609,6 +844,36 @@ class Unit7(tc4.ClassUnit):
             kind = {"alias"}
         return self.bind_call(fx, binds, " ".join(head), callee["ret"], kind=kind)
 
+    def mutator_call(self, c, rest, env, ctx, fx, ind):
+        """obj.m(...) as a statement, m a method that stores to slots of self: obj must be owned (a
+        fresh copy, or self inside __init__ / a mutator) and fully assigned; its state is replaced"""
+        obj = c.func.value.id
+        if obj not in env.owned:
+            raise Reject("call of the mutator %s on %s, which is not an owned (fresh) object"
+                         % (c.func.attr, obj))
+        if obj in env.partial:
+            raise Reject("object %s used before all its slots are assigned" % obj)
+        if c.keywords or any(isinstance(a, ast.Starred) for a in c.args):
+            raise Reject("keyword / starred arguments in a method call")
+        binds, args = [], []
+        for a in c.args:
+            b, v = self.expr(a, env, fx)
+            binds += b
+            if is_obj(v.ty):
+                raise Reject("object passed to a mutator")
+            args.append(self.arg_val(v))
+        try:
+            callee = self.method(c.func.attr, tuple(a.ty for a in args))
+        except Reject as exc:
+            raise Reject("call of %s.%s, which is outside the subset: %s" % (tc4.CLS, c.func.attr, exc))
+        if not callee["proc"]:
+            raise Reject("internal: %s is not a mutator" % c.func.attr)
+        dyn = [a.text for a in args if not (a.ty == NONE or (isinstance(a.ty, tuple) and a.ty[0] == "SB"))]
+        binds.append("v_%s <- %s" % (obj, " ".join([callee["coq"], "cal", "v_" + obj] + dyn)))
+        env2 = env.copy()
+        env2.nonnull = {(o, sl) for o, sl in env2.nonnull if o != obj}
+        return self.lines(ind, binds, "") + self.block(rest, env2, ctx, fx, ind)
+
     def method_body(self, node, sig):
         a = node.args
         if a.posonlyargs or a.vararg or a.kwonlyargs or a.kwarg or a.kw_defaults:
@@ -628,17 +893,20 @@ class Unit7(tc4.ClassUnit):
             params = names[1:]
         if node.name == "__init__":
             return self.init_body(node, params)
-        if node.name in self.mutators:
-            raise Reject("%s stores to slots of self: mutators belong to phase 4" % node.name)
+        proc = node.name in self.mutators     # stores to slots of self: the result is its new state
+        if proc and static:
+            raise Reject("%s: a staticmethod that stores to self" % node.name)
         if len(sig) > len(params) or len(params) - len(sig) > len(a.defaults):
             raise Reject("%s called with %d arguments" % (node.name, len(sig)))
         defaults = dict(zip(params[len(params) - len(a.defaults):], a.defaults))
-        fx = Fn7(node.name, False)
+        fx = Fn7(node.name, proc, TP)
         fx.top = tuple(node.body)
         fx.params = params
         env = Env()
         if not static:
             env.ty["self"] = TP
+        if proc:
+            env.owned.add("self")
         pre, binders, sigtext, codes = [], [], [], []
         for i, p in enumerate(params):
             if p in tc4.RESERVED or p in self.u2.funcs:
@@ -670,15 +938,19 @@ class Unit7(tc4.ClassUnit):
             else:
                 binders.append("(v_%s : %s)" % (p, coq_type(ty)))
             sigtext.append("%s : %s" % (p, sig_code(ty)))
-        ctx = Ctx(lambda e, i: self.emit_return(Val("tt", NONE), ctx, fx, i),
-                  lambda t, i: "  " * i + "Ok " + t)
+        if proc:
+            ctx = Ctx(lambda e, i: self.proc_end7(e, i, TP), lambda t, i: "  " * i + "Ok " + t)
+        else:
+            ctx = Ctx(lambda e, i: self.emit_return(Val("tt", NONE), ctx, fx, i),
+                      lambda t, i: "  " * i + "Ok " + t)
         body = self.translate_body(fx, node, env, ctx)
+        ret = TP if proc else fx.ret
         coq = "py_%s_%s%s" % (tc4.CLS, node.name, ("__" + "_".join(codes)) if codes else "")
         text = "Definition %s (cal : pyCalendar7) %s%s: exc %s :=\n%s%s." % (
             coq, "" if static else "(v_self : pyTimePoint) ", "".join(b + " " for b in binders),
-            coq_type(fx.ret), "".join(pre), body)
-        return {"coq": coq, "ret": fx.ret, "ret_kinds": sorted(fx.ret_kinds), "text": text,
-                "src": "%s.%s" % (tc4.CLS, node.name), "sig": ", ".join(sigtext), "proc": False,
+            coq_type(ret), "".join(pre), body)
+        return {"coq": coq, "ret": ret, "ret_kinds": [] if proc else sorted(fx.ret_kinds), "text": text,
+                "src": "%s.%s" % (tc4.CLS, node.name), "sig": ", ".join(sigtext), "proc": proc,
                 "static": static}
 
     def init_body(self, node, params):
@@ -775,44 +1047,51 @@ class Unit7(tc4.ClassUnit):
         if isinstance(s, ast.Expr) and isinstance(s.value, ast.Call) and isinstance(s.value.func, ast.Name) \
                 and s.value.func.id == "_type_checker" and "_type_checker" not in env.ty:
             self.type_checker(s.value, env)
-            return pad + "(* _type_checker(...): the static types of this entry point conform *)\n" + \
+            return pad + "(* _type_checker(...): a no-op on every run-time class of these typed arguments *)\n" + \
                 self.block(rest, env, ctx, fx, ind)
         return tc4.ClassUnit.stmt(self, s, rest, env, ctx, fx, ind)
 
     def type_checker(self, c, env):
-        """_type_checker((value, name, *types), ...): a no-op when the static types conform"""
+        """_type_checker((value, name, *types), ...): a no-op for this typed entry point when the
+        helper's own body, run on an abstract value of every run-time class a listed parameter's
+        static type admits, neither raises nor does anything else (ClassInterp)"""
+        if "_type_checker" in self.u2.globals or "_type_checker" in self.u2.modules:
+            raise Reject("_type_checker is rebound at module level")
+        node = self.u2.funcs.get("_type_checker")
+        if node is None:
+            raise Reject("no unique def _type_checker")
         if self.type_checker_ok is None:
-            node = self.u2.funcs.get("_type_checker")
-            ok = node is not None and not node.decorator_list and ast.unparse(node.args) == "*objects"
-            if ok:
-                body = [st for st in node.body
-                        if not (isinstance(st, ast.Expr) and isinstance(st.value, ast.Constant))]
-                ok = "\n".join(ast.unparse(st) for st in body) == TYPE_CHECKER_BODY
-            self.type_checker_ok = ok
-        if not self.type_checker_ok:
-            raise Reject("the body of _type_checker is not the text the translator reads as `raises only "
-                         "for a value whose type is outside the listed ones`")
-        if c.keywords:
-            raise Reject("_type_checker keywords")
+            self.type_checker_ok = ClassInterp(node)
+        interp = self.type_checker_ok
+        if c.keywords or any(isinstance(a, ast.Starred) for a in c.args):
+            raise Reject("_type_checker keywords / starred arguments")
+        specs = []
         for a in c.args:
-            if not (isinstance(a, ast.Tuple) and len(a.elts) >= 3 and isinstance(a.elts[0], ast.Name)
+            if not (isinstance(a, ast.Tuple) and len(a.elts) >= 2 and isinstance(a.elts[0], ast.Name)
                     and isinstance(a.elts[1], ast.Constant) and isinstance(a.elts[1].value, str)):
                 raise Reject("_type_checker argument shape")
             ty = env.ty.get(a.elts[0].id)
-            allowed = {ast.unparse(e) for e in a.elts[2:]}
-            if ty == Z and allowed in ({"int"}, {"int", "None"}):
-                continue
-            if ty == OPT(Z) and allowed == {"int", "None"}:
-                continue
-            if ty == Q and allowed in ({"int", "float"}, {"int", "float", "None"}):
-                continue
-            if ty == OPT(Q) and allowed == {"int", "float", "None"}:
-                continue
-            if ty in (OPQ,) and allowed == {"str", "None"}:
-                continue
-            if ty == S and allowed in ({"str"}, {"str", "None"}):
-                continue
-            raise Reject("_type_checker: %s of type %r against %s" % (a.elts[0].id, ty, sorted(allowed)))
+            if ty is None or is_static(ty):
+                raise Reject("_type_checker on %s, which is not a typed local" % a.elts[0].id)
+            allowed = []
+            for e in a.elts[2:]:
+                if isinstance(e, ast.Constant) and e.value is None:
+                    allowed.append(None)
+                elif isinstance(e, ast.Name) and e.id in ClassInterp.TYPES and e.id not in env.ty:
+                    allowed.append(ClassInterp.TYPES[e.id])
+                else:
+                    raise Reject("_type_checker: allowed type `%s`" % ast.unparse(e))
+            specs.append((a.elts[0].id, a.elts[1].value, tuple(allowed), runtime_classes(ty)))
+        first = [(_Abs(cl[0]), nm) + al for _p, nm, al, cl in specs]
+        for i, (p, nm, al, classes) in enumerate(specs):
+            for cls in classes:
+                objects = list(first)
+                objects[i] = (_Abs(cls), nm) + al
+                try:
+                    interp.run(objects)
+                except Reject as exc:
+                    raise Reject("_type_checker is not a no-op for %s holding a %s (static type %r): %s"
+                                 % (p, cls.__name__, env.ty[p], exc))
 
     def try_stmt(self, s, rest, env, ctx, fx, ind):
         """try: <simple statements> except (E1, E2) [as x]: <block that always raises>"""
@@ -1043,8 +1322,9 @@ REQUIRED = [
 ]
 OUT_OF_SCOPE = [
     ("_type_checker",
-     "intrinsic: a no-op when the static types of the entry point conform to the listed ones (its body is "
-     "compared with the known text); wrongly typed arguments (strings, ...) are outside the model"),
+     "not emitted: its body is executed at translation time on an abstract value of every run-time class "
+     "the static type of a listed parameter admits, and must neither raise nor call anything (then the call "
+     "is a no-op for the typed entry point); wrongly typed arguments (strings, ...) are outside the model"),
     ("_int_caster / float() on strings and other non-numbers",
      "the entry points are typed: ints, None-able ints, None-able int-or-floats (exact rationals), strings"),
     ("TimePoint(is_empty_instance=True), TimeZone(_is_empty_instance=True)",
@@ -1171,7 +1451,10 @@ def build_text():
             if r["coq"] not in emitted:
                 emitted.append(r["coq"])
                 note = (" [%s]" % r["sig"]) if r["sig"] else ""
-                kind = " -- the result is the state __init__ leaves" if r["proc"] else ""
+                kind = ""
+                if r["proc"]:
+                    kind = " -- the result is the state __init__ leaves" if "__init__" in r["src"] \
+                        else " -- mutator: the result is the new state of self"
                 body.append("(* %s%s%s *)\n%s\n" % (r["src"], note, kind, cal7(r["text"])))
 
     for label, coq in REQUIRED:
